@@ -1,6 +1,6 @@
 #!/bin/bash
 # dev.sh [go test args]: sync harness into the dev scratch and build/run tests there
 export GOFLAGS=-mod=mod GOPROXY=off GOSUMDB=off GOTOOLCHAIN=local
-S=/var/tmp/verif-scratch/dev
+S=/var/tmp/verif-scratch/${VERIF_DEV:-dev}
 [ -d $S/gluon ] || /verif/sim/prepare.sh $S
 rsync -a --delete --exclude go.sum /verif/sim/harness/ $S/harness/ && cd $S/harness && { [ -f go.sum ] || cp /repo/go.sum .; } && go1.26.8 "$@"
